@@ -69,6 +69,14 @@ func RunCommitSync(seed int64, idx int) *Result {
 		}
 	}
 	lastCbCtx := func() context.Context { cbMu.Lock(); defer cbMu.Unlock(); return cbCtx }
+	var parkCommittee int32
+	nd.Mem.OnRequest = func(ctx context.Context, h uint64) error {
+		if atomic.LoadInt32(&parkCommittee) == 1 {
+			net.count("committee requests after cancellation")
+			<-ctx.Done()
+		}
+		return ctx.Err()
+	}
 	sendGate := newGate()
 	sendGate.Open()
 	net.HoldSend = func(from *RNode, m *interfaces.ConsensusRawMessage) {
@@ -166,6 +174,7 @@ func RunCommitSync(seed int64, idx int) *Result {
 	rounds := 5 + rng.Intn(6)
 	lastSync := int64(-1) // highest block height handed to UpdateState so far (the main loop ignores anything not above it)
 	extremeDone := false
+	staleBefore := false // the last step was a batch of syncs that were all below the height being decided
 	for r := 0; r < rounds; r++ {
 		h0, _ := nd.HV()
 		kind := rng.Intn(10)
@@ -176,9 +185,14 @@ func RunCommitSync(seed int64, idx int) *Result {
 				g.Close()
 			}
 			if !drive(h0, rng.Intn(3) == 0) {
-				net.count("inconclusive: scripted commit did not happen")
+				if staleBefore {
+					net.violate("C14", "stale-sync-changed-the-outcome", "after UpdateState calls that were all below the height %d being decided, the proposal, PREPAREs and COMMITs of that height (which make the node commit when no such sync is made) no longer do: no commit callback within 10 s", h0)
+				} else {
+					net.count("inconclusive: scripted commit did not happen")
+				}
 				return finish()
 			}
+			staleBefore = false
 			net.count("C14 scripted commits")
 			var hs []uint64
 			stale := true
@@ -260,6 +274,7 @@ func RunCommitSync(seed int64, idx int) *Result {
 					net.violate("C14", "newest-sync-did-not-take-effect", "UpdateState heights %v returned nil while the node was committing height %d; after 64 witnessed worker iterations it is at height %d (view %d), expected at least %d", hs, h0, h1, v1, want)
 				}
 			}
+			staleBefore = len(hs) > 0 && stale
 			// the proof the node now builds on
 			prevSig = nil
 			if h1 == h0+1 {
@@ -269,6 +284,7 @@ func RunCommitSync(seed int64, idx int) *Result {
 			}
 		case kind < 8 && !extremeDone: // the extreme height, then a sync that must still take effect
 			extremeDone = true
+			staleBefore = false
 			if !call(&spi.Blk{H: ^uint64(0), Body: "height 2^64-1"}) {
 				return finish()
 			}
@@ -295,6 +311,42 @@ func RunCommitSync(seed int64, idx int) *Result {
 				}
 			}
 			prevSig = nil
+		case kind == 8 && h0 >= 2 && int64(h0-1) > lastSync: // idle node, sync with the block it already builds on (and maybe older ones)
+			hs := []uint64{h0 - 1}
+			if rng.Intn(2) == 0 {
+				hs = append(hs, uint64(rng.Intn(int(h0))))
+			}
+			eh, ev, live0 := nd.Manual.Current()
+			for _, h := range hs {
+				var ok bool
+				if h == 0 {
+					ok = call(nil)
+				} else {
+					ok = call(&spi.Blk{H: h, Body: "synced"})
+				}
+				if !ok {
+					return finish()
+				}
+				if int64(h) > lastSync {
+					lastSync = int64(h)
+				}
+			}
+			if nd.Witness(64) < 64 {
+				net.count("inconclusive: worker iterations not witnessed")
+				return finish()
+			}
+			h1, v1 := nd.HV()
+			net.count("C14 batches judged")
+			net.count("C14 stale batches judged")
+			net.count("C14 stale syncs to an idle node judged")
+			staleBefore = true
+			if h1 != h0 {
+				net.violate("C14", "stale-sync-changed-the-height", "UpdateState heights %v (all below the height %d being decided) moved the node to height %d (view %d)", hs, h0, h1, v1)
+			}
+			if eh2, ev2, live := nd.Manual.Current(); live0 && (!live || eh2 != eh || ev2 != ev) {
+				net.violate("C14", "stale-sync-changed-the-outcome", "UpdateState heights %v (all below the height %d being decided): the election timer registered for (%d,%d) before them is now (%d,%d) registered=%v — the round of the current height was torn down", hs, h0, eh, ev, eh2, ev2, live)
+			}
+			continue
 		default: // a plain newer sync
 			target := h0 + uint64(rng.Intn(3))
 			if int64(target) <= lastSync {
@@ -304,6 +356,7 @@ func RunCommitSync(seed int64, idx int) *Result {
 				return finish()
 			}
 			lastSync = int64(target)
+			staleBefore = false
 			if nd.Witness(64) < 64 {
 				net.count("inconclusive: worker iterations not witnessed")
 				return finish()
@@ -335,6 +388,9 @@ func RunCommitSync(seed int64, idx int) *Result {
 		}
 		net.count("C16 shutdowns judged")
 		net.count("C16 shutdowns while the commit callback waits on its context")
+		// from now on the committee contract waits on the context it is handed: whatever the library still starts after the
+		// cancellation must run under a context that is (or gets) cancelled
+		atomic.StoreInt32(&parkCommittee, 1)
 		nd.Cancel()
 		c2, cancel2 := context.WithTimeout(context.Background(), 20*time.Second)
 		nd.Waiter.WaitUntilShutdown(c2)
